@@ -102,6 +102,9 @@ func runWorkerProc(bin string, envs []string, timeout time.Duration) (stderr str
 				code = ee.ExitCode()
 			}
 		}
+		if code == exitHang {
+			return tail2(eb.String(), 4<<20), code, false // the whole goroutine dump is needed to classify the hang
+		}
 		return tail(eb.String(), 6000), code, false
 	case <-time.After(timeout):
 		cmd.Process.Signal(syscall.SIGQUIT)
